@@ -696,6 +696,10 @@ def rule_R8(ctx, R):
                     held[e["recv"]] = e["i"]
                 elif e["k"] in ("REL", "KILL") and e.get("recv") in held:
                     del held[e["recv"]]
+                elif e["k"] == "UNWIND_AT" and e.get("recv") in held and held[e["recv"]] == e["i"] - 1:
+                    del held[e["recv"]]      # the acquisition itself unwound: nothing was taken
+            held = {r: i for r, i in held.items() if p.locks.get(r) in ("W", "R") or
+                    any(x["k"] in ("REL", "KILL") and x.get("recv") == r and x["i"] > kd["i"] for x in p.events)}
             if not held:
                 continue
             for e in p.events:
